@@ -50,6 +50,7 @@ def mutants(prog):
         ("gaussian derivatives: spacing of the last axis", "deepali.core.image", "spatial_derivatives", "denom = spacing.narrow(1, sdim, 1)", "denom = spacing.narrow(1, D - 1, 1)", "T5.gaussian-spacing"),
         ("jacobian: a spacing sequence is read in tensor-axis order", Fm, "jacobian_dict", "kwargs = dict(mode=mode, sigma=sigma, spacing=spacing, stride=stride)", "kwargs = dict(mode=mode, sigma=sigma, spacing=tuple(reversed(spacing)) if isinstance(spacing, (tuple, list)) else spacing, stride=stride)", "T5.jacobian"),
         ("sobel / prewitt averaging kernel not normalised", "deepali.core.image", "spatial_derivatives", "avg_kernel /= avg_kernel.sum()", "avg_kernel.div(avg_kernel.sum())", "T5.first-order"),
+        ("compose_flows: identity coordinates updated in place", Fm, "compose_flows", "x.unsqueeze(0).add(u)", "x.unsqueeze(0).add_(u)", "T4.compose"),
     ]
     for name, mod, fn, old, new, expect in specs:
         ov = source_sub(prog, mod, fn, old, new)
